@@ -82,6 +82,11 @@ CHECKS = {
         text="For 30 templates covering every tag, trim-marker placement and output shape, a fault-free render records the Write calls the engine makes; then for every call index k the writer is made to fail at call k, accepting nothing or a strict prefix (all prefix lengths for short calls), once or forever, through FRender and ParseAndFRender. Each run must return a non-nil SourceError whose cause chain reaches the injected error, never panic, never report success, the bytes accepted up to the failure must be a prefix of the fault-free output, and after a permanent failure at most one more Write may be attempted. Contract-violating short writes (n < len, nil error) are enumerated for totality.",
         note="One fault per run (rendering must stop at the first failure, so later faults are unreachable). The set of Write calls is taken from the implementation's own fault-free run.",
         tech="exhaustive fault-point enumeration: every write index x fault shape on the real render path with an injecting io.Writer"),
+    "C14": dict(
+        cat="fault_enumeration", ref="4/C14",
+        text="The include environment (file system + template cache) is finite and owned by the harness: three files are each independently on disk, in the cache only, in both with different content, or missing (64 configurations, 'missing' being the injected fault), combined with 6 acyclic include graphs (nested, repeated, inside a loop), 8 ways of writing the include argument (literal, variable, variable assigned earlier in the render, filtered expression, map property, three non-strings), 4 included bodies (reading top-level and freshly assigned variables, assigning, failing filter, syntax error) and main templates parsed at several directory depths and without a path. Expected content is disk, else cache, else error; when everything resolves the output must equal the engine's own rendering of the textually inlined template, otherwise a SourceError with no output (os.IsNotExist cause for a missing file).",
+        note="Nested includes only between files of the main template's own directory (where both readings of 'relative to' coincide). Files live under /verif/.work/c14.<pid>, removed by the worker.",
+        tech="exhaustive environment-configuration enumeration (file present/cached/both/missing) x include graphs x argument forms with a reference inliner"),
 }
 
 NOT_YET = "check not built yet (work in progress; see DESIGN.md section 7 build order)"
